@@ -167,7 +167,7 @@ def msg_name(m):
     if k == "HasVote":
         return "HasVote(r%d,t%d,i%d)" % (m["r"], m["t"], m["idx"])
     if k == "Vote":
-        return "Vote(h%+d,r%d,t%d,i%d)" % (m["h"] - 1, m["r"], m["t"], m["idx"])
+        return "Vote(h%+d,r%d,t%d,i%d,%s)" % (m["h"] - 1, m["r"], m["t"], m["idx"], m["hdr"])
     if k == "Maj23":
         return "Maj23(r%d,t%d)" % (m["r"], m["t"])
     return "VSBits(r%d,t%d,%s,%d)" % (m["r"], m["t"], m["hdr"], m["size"])
@@ -220,7 +220,7 @@ def sequence_half(ctx, verdict, cov, quick, explicit=None):
     d = os.path.join(core.VERIF, "harness", "inpkg", "consensus")
     if not all(os.path.exists(os.path.join(d, f)) for f in SEQ_FILES):
         return None
-    mm = 2 if quick else 4
+    mm = 2 if quick else 3
     jobs = [("gossip", "C17_gossip", core.cfg_variant(ctx, "C17_gossip.cfg", "C17_gossip_run.cfg", {"MaxMsgs": mm}), True, None)]
     dump = os.path.join(ctx.work, "gossip_targeted")
     jobs.append(("gossip_targeted", "C17_gossip_targeted", "C17_gossip_targeted.cfg", True, [dump]))
@@ -317,7 +317,7 @@ def sequence_half(ctx, verdict, cov, quick, explicit=None):
         "targeted_sequences": len(targeted), "simulated_sequences": len(sims),
         "attack_sequences": {src: a[0] + ":" + seq_name(a[1]) for src, a in attacks},
         "node_classes": sorted({u["ns"] for u in units}),
-        "after_every_sequence": "NewHeight timeout (if pending), one failed round, one committed height",
+        "after_every_sequence": "NewHeight timeout (if pending), two failed rounds (r -> r+1 -> r+2), one committed height",
         "sequences_executed": len(units), "messages_sent": sum(1 for r in rows_all if r.get("ev") == "Msg" and r["sent"]),
         "process_crashes": crashes_all, "conformance_drift_count": len(v["drift"]), "conformance_drift_kinds": drift_by,
         "conformance_drift": [{"what": dr["what"], "step": core.abridge(dr["row"])} for dr in v["drift"][:10]],
